@@ -68,9 +68,18 @@ theorem pyPad_map {α β} (f : α → β) (fill : α) (align : Align) (width : N
     (pyPad fill align width s).map f = pyPad (f fill) align width (s.map f) := by
   cases align <;> simp [pyPad]
 
+/-- the generated constants are the characters of Python's format-spec mini-language (re-decided by
+the kernel whenever `ak/color.py` changes them) -/
+theorem gen_consts : Gen.C08.defaultAlign = '<' ∧ Gen.C08.leftAlign = '<' ∧ Gen.C08.rightAlign = '>' ∧
+    Gen.C08.typeChar = 's' ∧ Gen.C08.defaultFill = ' ' ∧ Gen.C08.padChar = ' ' := by decide
+
+theorem isAlign_eq (c : Char) : isAlign c = (c = '<' || c = '>' || c = '^') := by
+  have h1 : Gen.C08.alignChars = ['<', '>', '^'] := by decide
+  simp [isAlign, h1, Bool.or_assoc]
+
 theorem digit_not_align (c : Char) (h : isAsciiDigit c = true) : isAlign c = false := by
   simp only [isAsciiDigit, Bool.and_eq_true, decide_eq_true_eq] at h
-  simp only [isAlign, Bool.or_eq_false_iff, decide_eq_false_iff_not]
+  simp only [isAlign_eq, Bool.or_eq_false_iff, decide_eq_false_iff_not]
   refine ⟨⟨?_, ?_⟩, ?_⟩ <;> (intro hc; subst hc; revert h; decide)
 
 theorem digit_ascii (c : Char) (h : isAsciiDigit c = true) : c.toNat < 128 := by
@@ -107,7 +116,7 @@ theorem stripType_render (sp : FmtSpec) (hv : sp.Valid) :
     have : ¬ ('s'.toNat ≥ 128) := by decide
     simp only [this, if_false]
     have : (isAsciiDigit 's' || isAlign 's') = false := by decide
-    simp [this]
+    simp [this, gen_consts.2.2.2.1]
   | false =>
     simp only [Bool.false_eq_true, if_false, List.append_nil]
     cases hl : (sp.pre ++ sp.width).getLast? with
@@ -130,7 +139,7 @@ theorem stripType_render (sp : FmtSpec) (hv : sp.Valid) :
         cases hlast with
         | inl h => have := digit_ascii _ h; omega
         | inr h =>
-          simp only [isAlign, Bool.or_eq_true, decide_eq_true_eq] at h
+          simp only [isAlign_eq, Bool.or_eq_true, decide_eq_true_eq] at h
           rcases h with (h | h) | h <;> (subst h; decide)
       simp only [hascii, if_false]
       have : (isAsciiDigit last || isAlign last) = true := by
@@ -182,7 +191,7 @@ theorem formatPads_render (sp : FmtSpec) (hv : sp.Valid) (n : Nat) :
   rw [stripType_render sp hv]
   simp only []
   unfold padsOf
-  rw [findAlign_render sp hv]
+  rw [findAlign_render sp hv, gen_consts.1, gen_consts.2.1, gen_consts.2.2.1, gen_consts.2.2.2.2.1]
   unfold FmtSpec.align FmtSpec.fill FmtSpec.widthVal FmtSpec.pre
   have hpw := parseWidth_digits sp.width hv.1
   cases hf : sp.falign with
@@ -218,4 +227,48 @@ theorem format_cells (t : Text) (h : LenOK t) (sp : FmtSpec) (hv : sp.Valid) :
   unfold pyPad
   cases sp.align <;> simp [plainCells]
 
+theorem digitChar_facts (k : Nat) (h : k < 10) :
+    isAsciiDigit (Nat.digitChar k) = true ∧ (Nat.digitChar k).toNat - 48 = k ∧ (0 < k → Nat.digitChar k ≠ '0') := by
+  match k, h with
+  | 0, _ => decide
+  | 1, _ => decide
+  | 2, _ => decide
+  | 3, _ => decide
+  | 4, _ => decide
+  | 5, _ => decide
+  | 6, _ => decide
+  | 7, _ => decide
+  | 8, _ => decide
+  | 9, _ => decide
+  | n + 10, h => omega
+
+theorem decVal_append (l : List Char) (d : Char) : decVal (l ++ [d]) = decVal l * 10 + (d.toNat - 48) := by
+  simp [decVal, List.foldl_append]
+
+/-- the decimal numeral of a positive number is a valid width string and denotes that number -/
+theorem toDigits_width (n : Nat) (hn : 0 < n) :
+    (∀ c ∈ Nat.toDigits 10 n, isAsciiDigit c = true) ∧ (Nat.toDigits 10 n).head? ≠ some '0' ∧
+    decVal (Nat.toDigits 10 n) = n := by
+  induction n using Nat.strongRecOn with
+  | _ n ih =>
+    rw [Nat.toDigits_eq_if (by decide)]
+    by_cases hlt : n < 10
+    · simp only [hlt, if_true]
+      obtain ⟨h1, h2, h3⟩ := digitChar_facts n hlt
+      refine ⟨by simpa using h1, by simpa using h3 hn, by simpa [decVal] using h2⟩
+    · simp only [hlt, if_false]
+      have hq : 0 < n / 10 := by omega
+      obtain ⟨i1, i2, i3⟩ := ih (n / 10) (by omega) hq
+      obtain ⟨h1, h2, _⟩ := digitChar_facts (n % 10) (by omega)
+      refine ⟨?_, ?_, ?_⟩
+      · intro c hc
+        simp only [List.mem_append, List.mem_singleton] at hc
+        rcases hc with hc | hc
+        · exact i1 c hc
+        · rw [hc]; exact h1
+      · have hne : Nat.toDigits 10 (n / 10) ≠ [] := Nat.toDigits_ne_nil
+        cases hd : Nat.toDigits 10 (n / 10) with
+        | nil => exact absurd hd hne
+        | cons x xs => rw [hd] at i2; simpa using i2
+      · rw [decVal_append, i3, h2]; omega
 end CHText
